@@ -1,0 +1,36 @@
+//go:build verif
+
+// Contract for the Merkle-Damgard wrapper (comment-only). The compression function is an interface (assumed
+// contracts below). Write feeds the compression function one block at a time: every block it passes is either the
+// next blockSize bytes of the input, unchanged and in order, or - for a short last block - a buffer of exactly
+// blockSize bytes holding zeros followed by the remaining bytes of the input (left padding); the chaining value
+// passed is the current state (in the clauses p is the input as given, cur(p) what remains of it), and the state becomes what the compression function returned.
+
+package hash
+
+//@ func (hash.Compressor).BlockSize
+//@ assumed interface Compressor: the block size is a positive number
+//@ ensures result >= 1 && result <= 1048576
+//@ end
+
+//@ func (hash.Compressor).Compress
+//@ assumed interface Compressor: Compress reads its two arguments, neither retains nor writes them, and returns a slice it allocated
+//@ end
+
+//@ func merkleDamgardHasher.Write
+//@ option nomerge
+//@ option loop-slice-windows
+//@ ghost bs = 0
+//@ cut after call BlockSize #1
+//@ + ghost bs = callresult
+//@ loop 0
+//@ + invariant[block-size] bs >= 1 && blockSize == bs
+//@ + invariant[count] 0 <= n && n <= len(p) + bs
+//@ + invariant[window] len(cur(p)) == 0 || (n <= len(p) && same(cur(p), p[n:]))
+//@ cut before call Compress #1
+//@ + invariant[block] len(callarg2) == bs
+//@ + invariant[chained] same(callarg1, h.state)
+//@ + invariant[full-block] len(p) - n >= bs ==> same(callarg2, p[n:n+bs])
+//@ + invariant[padded-block] len(p) - n < bs ==> forall(j, 0, bs - (len(p) - n), callarg2[j] == 0) && forall(j, 0, len(p) - n, callarg2[bs - (len(p) - n) + j] == p[n + j])
+//@ modifies h.state
+//@ end
